@@ -196,6 +196,30 @@ def reads(chk, prog, cfg):
                 total_good += 1
                 chk.ob("R4.reads", fn, f"{t['callee'].split('::')[-1]}@{describe_short(prog, b, t)}", True, where=b.where(blk), cfg=cfg)
     chk.floor(f"segmentation-proof reads in the request parser [{cfg}]", total_good, 2)
+    # received bytes become text only by UTF-8 decoding: a per-byte conversion (`b as char`, char::from(b)) reads them as ISO-8859-1 and
+    # from_utf8_lossy substitutes, so a non-ASCII header value is no longer the value that was sent (and is re-encoded on relay)
+    fam = set()
+    for fn in fns:
+        b = prog.impl_body(fn)
+        if b is not None:
+            fam |= {q for q in prog.reach_bodies([b.path], extra_edges=lambda bb: [c.path for c in prog.closures_of(bb.path)]) if q.startswith("humphrey::http::request::")}
+    n_dec = 0
+    for q in sorted(fam):
+        bb = prog.bodies[q]
+        for bi, blk in enumerate(bb.blocks):
+            for st in blk["stmts"]:
+                rv = st.get("rv")
+                if rv and rv.get("k") == "cast" and not st["pl"]["p"] and bb.local_ty(st["pl"]["l"]) == "char":
+                    chk.ob("R4.utf8_decode", q, "no byte is turned into a character by a cast", False,
+                           "`byte as char` decodes the received bytes as ISO-8859-1: a UTF-8 header value such as `Zürich` is parsed as `ZÃ¼rich` and re-encoded when the request is relayed",
+                           where=bb.where(bi), cfg=cfg)
+        for bi, t in bb.calls():
+            if core.call_matches(t, r"from_utf8$|String::from_utf8$"):
+                n_dec += 1
+            if core.call_matches(t, r"(from_utf8_lossy|from_utf8_unchecked|from_utf8_unchecked_mut|<char as std::convert::From<u8>>::from|char::from_u32|char::from_u32_unchecked|char::from_digit)$"):
+                chk.ob("R4.utf8_decode", q, f"received bytes are decoded with from_utf8, not {core.short(t['callee'])}", False,
+                       f"{t['callee']} does not reproduce the text the bytes denote (substitution / per-byte decoding)", where=bb.where(bi), cfg=cfg)
+    chk.floor(f"UTF-8 decoding sites in the request parser [{cfg}]", n_dec, 1)
     # body buffer
     fn = "humphrey::http::request::Request::from_stream_inner"
     b = prog.impl_body(fn)
